@@ -249,6 +249,10 @@ class C07:
             ("ptr-in-sec-setopt-refused", [["getopt", 1, hx("tm=a|q"), 9], ["cbfail", 1], ["setopt", 1, 9, hx("zz")], ["cbfail", 0]]),
             ("setstr-null-list", ["setstr", 1, hx("sl"), 0, "~"]),
             ("parse-read-error", ["parse_fp_fail", 1, hx(good), 120]),
+            ("parse-missing-file", ["parse_file", 1, hx(os.path.join(fx, "c07_no_such_file.conf"))]),
+            ("parse-missing-file-tilde", ["parse_file", 1, hx("~/c07_no_such_file.conf")]),
+            ("parse-missing-file-relative", ["parse_file", 1, hx("c07_no_such_file.conf")]),
+            ("parse-directory", ["parse_file", 1, hx(fx)]),
             ("simple-parse", ["parse_buf", 1, hx("ss = fromtext\nsi = 9\nss = again\n")]),
             ("simple-setstr", ["setstr", 1, hx("ss"), 0, hx("v")]),
             ("simple-setmulti-good", ["setmulti", 1, hx("ss"), 2, hx("g1"), hx("g2")]),
